@@ -7,6 +7,7 @@ import JubakoModel.Lemmas.CrcWindow
 import JubakoModel.Lemmas.Mask
 import JubakoModel.Lemmas.DamageFile
 import JubakoModel.Model.DirLayout
+import JubakoModel.Lemmas.FuncsParse
 
 namespace Jubako
 
@@ -216,5 +217,12 @@ theorem c05_index_lookup_some (ios : List (Outcome IndexInfo)) (name : Bytes) (i
 example :
     lookupIndexByName [.err .format, .ok ⟨0, 1, 0, [0, 0, 0, 0], 0, [97]⟩] [109] = .err .format ∧
     lookupIndexByName [.err .format, .ok ⟨0, 1, 0, [0, 0, 0, 0], 0, [97]⟩] [97] = .err .format := ⟨rfl, rfl⟩
+
+/-- **How the reader interprets the bytes of a property header is what the source does** (`RawProperty::parse`
+    translated on every run): in particular every byte string the source rejects with a format error is
+    rejected by the model, and conversely — a damaged header is never decoded by one and reported by the other. -/
+theorem c05_property_parser_is_source_parser (bs : Bytes) :
+    (Generated.rawPropertyParse bs).Same ((RawProp.decode bs).map' (fun x => (x.1.toSrcRaw, x.2))) :=
+  gen_rawPropertyParse bs
 
 end Jubako
